@@ -109,6 +109,7 @@ type symCtx struct {
 	slvEvents []event // events whose scopes are on the solver stack
 
 	valueCap int
+	noFork   bool // a speculation is active: events must not be created
 
 	// solver diff: a seeded sample of assertion queries as stand-alone scripts
 	diffSeed int64
@@ -155,6 +156,9 @@ func (s *symCtx) beginPath(prefix []event) {
 }
 
 func (s *symCtx) fresh(name string, bits int) *term {
+	if s.noFork {
+		panic(specBail{"fresh variable"})
+	}
 	name = sanitize(name)
 	s.varSeq[name]++
 	v := s.tt.variable(fmt.Sprintf("%s!%d", name, s.varSeq[name]), bits)
@@ -233,6 +237,9 @@ func (s *symCtx) decide(c *term) bool {
 	if v, ok := s.known(c); ok {
 		return v
 	}
+	if s.noFork {
+		panic(specBail{"fork"})
+	}
 	nc := s.tt.not(c)
 	if s.pos < s.forced {
 		e := s.events[s.pos]
@@ -273,6 +280,9 @@ func (s *symCtx) concretise(x *term) uint64 {
 	if x.isConst() {
 		return x.val
 	}
+	if s.noFork {
+		panic(specBail{"concretisation"})
+	}
 	s.Concretised++
 	for n := 0; ; n++ {
 		if n > s.valueCap {
@@ -310,6 +320,9 @@ func (s *symCtx) concretise(x *term) uint64 {
 
 // assume restricts the path; an infeasible assumption ends it.
 func (s *symCtx) assume(c *term) {
+	if s.noFork {
+		panic(specBail{"assume"})
+	}
 	if v, ok := s.known(c); ok {
 		if !v {
 			s.Aborted++
@@ -338,6 +351,9 @@ func (s *symCtx) assume(c *term) {
 // assert checks c on the current path; on failure the violation is recorded
 // and the path continues under c.
 func (s *symCtx) assert(c *term, prop, label string) {
+	if s.noFork {
+		panic(specBail{"assert"})
+	}
 	s.asserts[label]++
 	if v, ok := s.known(c); ok {
 		if !v {
